@@ -1985,6 +1985,8 @@ class Interp:
                 continue
             if kind == 'sum':
                 p = alg.sum_over(p, lab)
+            elif kind in ('any', 'all', 'max', 'min', 'nanmax', 'nanmin') and self.axis_len.get(lab, 0) > 0 and lab not in alg.poly_labels(p):
+                pass                   # the same value at every position of a non-empty axis: that value
             else:
                 p = alg.mk_fn(kind, B(lab, p))
         if mask is not None:
@@ -2650,6 +2652,9 @@ class Interp:
                 tn = t_.name if isinstance(t_, Marker) else (t_.__name__ if isinstance(t_, type) else (t_ if isinstance(t_, str) else ''))
                 if tn.split('.')[-1] in ('bool', 'bool_') and not _is_boolean(recv.poly):
                     return recv.with_(poly=alg.b_not(alg.mk_ind('==0', recv.poly)), unit=None, dt=None)       # x != 0
+                if _dtype_kind(t_, None) == 'i' and recv.poly.is_const() and recv.poly.const_value().denominator != 1:
+                    import math as _math
+                    return recv.with_(poly=num(_math.trunc(recv.poly.const_value())), dt='i')         # a fractional constant cast to an integer type is cut
                 return recv.with_(dt=_dtype_kind(t_, None))
             if name == 'copy':
                 return recv.with_(dt=recv.dt if recv.dt in ('f', 'i') else 'inherit')
@@ -3328,6 +3333,8 @@ def merge_val(a, b, cond, node):
             else:
                 o.attrs[k] = Unk('attribute %s set on one branch only' % k, node)
         return o
+    if cond is not None and isinstance(a, Foreign) and isinstance(b, Foreign):
+        return _Select(cond, a, b)             # one of two library objects, chosen by the condition: what is done with it is done with each under its condition
     if cond is not None and isinstance(a, (str, Fmt)) and isinstance(b, (str, Fmt)):
         return _SelectVal(cond, a, b)          # one of two pieces of text, chosen by the condition
     if isinstance(a, (FuncRef, ClassRef, ModRef, Marker)) and type(a) == type(b):
